@@ -293,7 +293,90 @@ def _pick(fails, prop='C14'):
     return fails[0]
 
 
+BEFORE_OPS = ('twin-bool', 'twin-float', 'same', 'parse', 'look-schema', 'other-instance:twin-bool', 'other-instance:twin-float')
+
+
+def map_leaves(name, tree, leaf):
+    """copy of a value tree with every fixed-width leaf v replaced by leaf(prim, v, is_flags_field)"""
+    def val(t, v, fl):
+        k = t[0]
+        if k == 'prim':
+            if t[1] == 'bytes' and isinstance(v, dict) and '@type' in v:
+                return obj(v['@type'], v)
+            return leaf(t[1], v, fl) if t[1] in ('int', 'long', '#', 'Bool', 'int128', 'int256') else v
+        if k == 'vector':
+            return [val(t[1], e, False) for e in v]
+        if k == 'bare':
+            return obj(t[1], v)
+        if k == 'boxed':
+            return leaf('Bool', v, False) if t[1] == 'Bool' else obj(v['@type'], v)
+        return v
+
+    def obj(n, tr):
+        c = SCH.ctor(n)
+        cond_fields = {a.cond[0] for a in c.args if a.cond is not None}
+        out = {'@type': n}
+        for a in c.args:
+            if a.name in tr:
+                out[a.name] = val(a.type, tr[a.name], a.name in cond_fields)
+        return out
+    return obj(name, tree)
+
+
+def twin_tree(name, tree, mode):
+    """the value tree with every fixed-width leaf replaced by a value of ANOTHER type that compares (and hashes) equal to it:
+    mode 'bool': Bool True/False -> 1/0, int/long/# 1/0 -> True/False;  mode 'float': int/long/#/Bool v -> float(v) where exact.
+    These spellings are not well-typed, the library takes them without complaint; they are only ever used as an EARLIER call."""
+    def leaf(p, v, fl):
+        if p in ('int', 'long', '#'):
+            if mode == 'bool':
+                return bool(v) if v in (0, 1) else v
+            return float(v) if abs(v) < 1 << 53 else v
+        if p == 'Bool':
+            return int(v) if mode == 'bool' else float(v)
+        return v
+    return map_leaves(name, tree, leaf)
+
+
+def _forget_library():
+    """the TL modules are imported afresh: module-level state starts as in a new process (the next _schemas() call rebuilds)"""
+    import sys
+    for k in [k for k in sys.modules if k == 'pytoniq_core.tl' or k.startswith('pytoniq_core.tl.')]:
+        del sys.modules[k]
+    _LIB.clear()
+
+
+def _earlier_calls(case, name, g, schemas, exp):
+    """case['before']: calls the process made EARLIER (results and exceptions ignored). What they leave behind must not change
+    what the well-typed call computes afterwards."""
+    from harness.core import look
+    for op in case.get('before', ()):
+        sc = schemas
+        if op.startswith('other-instance:'):
+            op = op.split(':', 1)[1]
+            ok, sc = call(lambda: g.TlGenerator.with_default_schemas().generate())
+            if not ok:
+                continue
+        sch = sc.get_by_name(name)
+        if op in ('twin-bool', 'twin-float'):
+            _, sloppy = mat_obj(name, twin_tree(name, case['v'], op[5:]), new_info())
+            call(sc.serialize, sch, sloppy)
+        elif op == 'same':
+            call(sc.serialize, sch, mat_obj(name, case['v'], new_info())[1])
+        elif op == 'parse':
+            try:
+                budgeted_deserialize(g, sc, exp)
+            except BudgetExceeded:
+                pass
+        elif op == 'look-schema':
+            look(sch)
+        else:
+            raise HarnessError(f'unknown earlier call {op!r}')
+
+
 def check_ctor(case):
+    if case.get('fresh'):
+        _forget_library()
     g, schemas = _schemas()
     name = case['ctor']
     if name not in SUPPORTED_SET:
@@ -319,6 +402,16 @@ def check_ctor(case):
         _lg.propagate = False
         _lg.setLevel(5)
     try:
+        if case.get('before'):
+            _earlier_calls(case, name, g, schemas, exp)
+            f_ = _check_ctor_body(case, name, info, ref, lib, pieces, exp, inner, fails, g, schemas)
+            if f_ is None:
+                return None
+            # was it the earlier calls? the same case without them, in freshly imported TL modules
+            _forget_library()
+            g, schemas = _schemas()
+            f0 = _check_ctor_body(case, name, info, ref, lib, pieces, exp, inner, [], g, schemas)
+            return f0 if f0 is not None else Fail(f_.signature + '/after-earlier-calls', f'after {case["before"]}: {f_.detail}')
         return _check_ctor_body(case, name, info, ref, lib, pieces, exp, inner, fails, g, schemas)
     finally:
         _lg.setLevel(_old_level)
@@ -516,11 +609,39 @@ def enum_raw(tier):
         yield {'raw': (b + b'\x00\x00\x00\x00').hex()}
 
 
+BID_WHO = ('x', 'twin', 'y', 'z', 'b')
+BID_HOW = ('describe', 'look', 'repr', 'str', 'fstring', 'percent')
+
+
+def _show(o, how):
+    """what a caller's logging does with a block id it holds; results and exceptions are nobody's property"""
+    from harness.core import describe, look
+    try:
+        if how == 'describe':
+            describe(o)
+        elif how == 'look':
+            look(o)
+        elif how == 'repr':
+            repr(o)
+        elif how == 'str':
+            str(o)
+        elif how == 'fstring':
+            f'got {o}'
+        else:
+            'got %s' % (o,)
+    except Exception:
+        pass
+
+
 def check_blockid(case):
+    """three rounds of the same relations: (0) nothing was ever formatted, (1) after the objects named in case['printed'] were
+    formatted the way case['how'] says, (2) after those in case['printed_late'] were formatted as well.  A relation that holds in
+    round 0 and fails later gets the suffix /after-formatting (formatting an object is not an operation on it)."""
     from pytoniq_core.tl.block import BlockId, BlockIdExt
     wc, shard, seqno = case['wc'], case['shard'], case['seqno']
     root, file = bytes.fromhex(case['root']), bytes.fromhex(case['file'])
     eff_shard = -2 ** 63 if shard is None else shard
+    how = case.get('how', 'describe')
     fails = []
 
     def mk():
@@ -537,12 +658,6 @@ def check_blockid(case):
     if fields(x) != (wc, eff_shard, seqno, root, file):
         fails.append(Fail('blockidext/constructor-fields', str(fields(x))))
     twin = mk()
-    ok, y = call(lambda: BlockIdExt.from_bytes(x.to_bytes()))
-    if not ok:
-        fails.append(Fail(f'blockidext/bytes-roundtrip-raises/{exc_sig(y)}', repr(y)))
-        y = None
-    elif not (y == x) or fields(y) != fields(x):
-        fails.append(Fail('blockidext/bytes-roundtrip-differs', f'{y!r} != {x!r}'))
     # from_dict gets the caller's dictionary (as the parser returns it, '@type' included): read, not edited
     import copy as _copy
     for cls_, dct in ((BlockIdExt, dict(x.to_dict(), **{'@type': 'tonNode.blockIdExt'})), (BlockId, {'@type': 'tonNode.blockId', 'workchain': wc, 'shard': eff_shard, 'seqno': seqno})):
@@ -550,39 +665,89 @@ def check_blockid(case):
         okd, _o = call(cls_.from_dict, dct)
         if okd and dct != before:
             fails.append(Fail('blockid/from_dict-edits-the-callers-dictionary', f'{cls_.__name__}: {sorted(before)} -> {sorted(dct)}'))
-    ok, z = call(lambda: BlockIdExt.from_dict(x.to_dict()))
-    if not ok:
-        fails.append(Fail(f'blockidext/dict-roundtrip-raises/{exc_sig(z)}', repr(z)))
-        z = None
-    elif not (z == x) or fields(z) != fields(x):
-        fails.append(Fail('blockidext/dict-roundtrip-differs', f'{z!r} != {x!r}'))
-    if not (twin == x):
-        fails.append(Fail('blockidext/equal-ids-compare-unequal', repr(x)))
-    ok, h = call(hash, x)
-    if not ok:
-        fails.append(Fail('blockidext/hash-raises', f'hash({x!r}) -> {h!r}'))
-    else:
-        others = [o for o in (twin, y, z) if o is not None]
-        ok, hs = call(lambda: [hash(o) for o in others])
-        if not ok or any(v != h for v in hs):
-            fails.append(Fail('blockidext/equal-ids-hash-differently', f'{h} vs {hs!r}'))
-        ok, r = call(lambda: all({x: 'v'}.get(o) == 'v' for o in others) and len({x, *others}) == 1)
-        if not ok or not r:
-            fails.append(Fail('blockidext/dict-key-lookup', f'equal ids do not find each other in a dict/set: {r!r}'))
-    # BlockId: no __eq__ -> field-wise
     ok, b = call(BlockId, wc, shard, seqno)
     if not ok:
         fails.append(Fail(f'blockid/constructor-raises/{exc_sig(b)}', repr(b)))
-    else:
-        ok, b2 = call(lambda: BlockId.from_dict(b.to_dict()))
+        b = None
+    if fails:
+        return _pick(fails)
+
+    # long-lived objects: made once, BEFORE anything is formatted; containers keyed by x likewise
+    held = {'x': x, 'twin': twin, 'b': b}
+    for nm, f_ in (('y', lambda: BlockIdExt.from_bytes(x.to_bytes())), ('z', lambda: BlockIdExt.from_dict(x.to_dict()))):
+        ok, o = call(f_)
+        held[nm] = o if ok else None                   # a raising round trip is reported by relations()
+    ok, h0 = call(hash, x)
+    d0, s0 = ({x: 'v'}, {x}) if ok else (None, None)
+    bytes0, dict0 = x.to_bytes(), x.to_dict()
+    bd0 = {b: 1} if b is not None and call(hash, b)[0] else None
+    bdict0 = b.to_dict() if b is not None else None
+
+    def relations():
+        out = []
+        ok, y = call(lambda: BlockIdExt.from_bytes(x.to_bytes()))          # fresh copies, made now
         if not ok:
-            fails.append(Fail(f'blockid/dict-roundtrip-raises/{exc_sig(b2)}', repr(b2)))
-        elif (b2.workchain, b2.shard, b2.seqno) != (wc, eff_shard, seqno) or b2.to_dict() != b.to_dict():
-            fails.append(Fail('blockid/dict-roundtrip-differs', f'{b2.to_dict()} != {b.to_dict()}'))
-        ok, r = call(lambda: {b: 1}[b] == 1 and isinstance(hash(b), int))
-        if not ok or not r:
-            fails.append(Fail('blockid/not-usable-as-dict-key', repr(r)))
-    return _pick(fails)
+            out.append(Fail(f'blockidext/bytes-roundtrip-raises/{exc_sig(y)}', repr(y)))
+            y = None
+        elif not (y == x) or not (x == y) or fields(y) != fields(x):
+            out.append(Fail('blockidext/bytes-roundtrip-differs', f'{fields(y)} != {fields(x)}'))
+        ok, z = call(lambda: BlockIdExt.from_dict(x.to_dict()))
+        if not ok:
+            out.append(Fail(f'blockidext/dict-roundtrip-raises/{exc_sig(z)}', repr(z)))
+            z = None
+        elif not (z == x) or not (x == z) or fields(z) != fields(x):
+            out.append(Fail('blockidext/dict-roundtrip-differs', f'{fields(z)} != {fields(x)}'))
+        if x.to_bytes() != bytes0 or x.to_dict() != dict0:
+            out.append(Fail('blockidext/to_bytes-or-to_dict-changed', f'{x.to_dict()} != {dict0}'))
+        others = [o for o in (twin, held['y'], held['z'], y, z) if o is not None]
+        for o in others:
+            for p_, q_ in ((o, x), (x, o)):
+                okc, r = call(lambda: p_ == q_)
+                if not okc or not r:
+                    out.append(Fail('blockidext/equal-ids-compare-unequal', f'{fields(p_)} == {fields(q_)} -> {r!r}'))
+                    break
+                if o.to_bytes() != bytes0 or o.to_dict() != dict0:
+                    out.append(Fail('blockidext/equal-ids-convert-differently', f'{o.to_dict()} != {dict0}'))
+                    break
+        ok, h = call(hash, x)
+        if not ok:
+            out.append(Fail('blockidext/hash-raises', f'hash of {fields(x)} -> {h!r}'))
+        else:
+            if h != h0:
+                out.append(Fail('blockidext/hash-changed', f'{h0} -> {h}'))
+            ok, hs = call(lambda: [hash(o) for o in others])
+            if not ok or any(v != h for v in hs):
+                out.append(Fail('blockidext/equal-ids-hash-differently', f'{h} vs {hs!r}'))
+            # containers built now and containers built before anything was formatted
+            ok, r = call(lambda: all({x: 'v'}.get(o) == 'v' and {o: 'v'}.get(x) == 'v' and d0.get(o) == 'v' and o in s0
+                                     for o in others + [x]) and len({x, *others}) == 1 and len(s0 | set(others)) == 1)
+            if not ok or not r:
+                out.append(Fail('blockidext/dict-key-lookup', f'equal ids do not find each other in a dict/set: {r!r}'))
+        # BlockId: no __eq__ -> field-wise
+        if b is not None:
+            ok, b2 = call(lambda: BlockId.from_dict(b.to_dict()))
+            if not ok:
+                out.append(Fail(f'blockid/dict-roundtrip-raises/{exc_sig(b2)}', repr(b2)))
+            elif (b2.workchain, b2.shard, b2.seqno) != (wc, eff_shard, seqno) or b2.to_dict() != b.to_dict() or b.to_dict() != bdict0:
+                out.append(Fail('blockid/dict-roundtrip-differs', f'{b2.to_dict()} != {bdict0}'))
+            ok, r = call(lambda: {b: 1}[b] == 1 and isinstance(hash(b), int) and (bd0 is None or bd0[b] == 1))
+            if not ok or not r:
+                out.append(Fail('blockid/not-usable-as-dict-key', repr(r)))
+        return out
+
+    fails = relations()
+    if fails:
+        return _pick(fails)
+    for stage in ('printed', 'printed_late'):
+        who = [w for w in case.get(stage, []) if held.get(w) is not None]
+        if not who:
+            continue
+        for w in who:
+            _show(held[w], how)
+        fails = relations()
+        if fails:
+            return _pick([Fail(f_.signature + '/after-formatting', f'after {how} of {who}: {f_.detail}') for f_ in fails])
+    return None
 
 
 # --------------------------------------------------------------------------------------------------
@@ -656,9 +821,30 @@ def gen_len(ch, big):
     return 70000
 
 
+BOOL_TRUE_LE, BOOL_FALSE_LE = bytes.fromhex('b5757299'), bytes.fromhex('379779bc')
+IDS_LE = sorted(AVOID)
+
+
+def magic_word(ch):
+    """4 wire bytes that mean something elsewhere in TL: the boolTrue / boolFalse constructor ids, any other known constructor id"""
+    r = ch.int(0, 2)
+    return BOOL_TRUE_LE if r == 0 else BOOL_FALSE_LE if r == 1 else ch.pick(IDS_LE)
+
+
+def magic_int(ch, bits, signed):
+    """an integer whose little-endian wire bytes are (32 bit) or contain, word-aligned (64 bit), such a word"""
+    w = magic_word(ch)
+    if bits == 64:
+        other = ch.pick([b'\x00' * 4, b'\xff' * 4, w, ch.bytes(4)])
+        w = w + other if ch.int(0, 1) else other + w
+    return int.from_bytes(w, 'little', signed=signed)
+
+
 def gen_int(ch, bits, signed=True):
     lo, hi = (-(1 << (bits - 1)), (1 << (bits - 1)) - 1) if signed else (0, (1 << bits) - 1)
-    r = ch.int(0, 9)
+    r = ch.int(0, 11)
+    if r >= 10 and bits >= 32:
+        return magic_int(ch, bits, signed)
     if r < 4:
         return ch.pick([lo, lo + 1, -1, 0, 1, 255, 256, hi - 1, hi] if signed else [0, 1, 255, 256, hi >> 1, hi])
     if r < 6:
@@ -732,7 +918,8 @@ def gen_obj(ch, name, budget, big, flags=None, bit31=True):
                         v |= 1 << 31
             else:
                 v = ch.pick([0, 1, 2, 3, 255, (1 << 31) - 1, ch.int(0, (1 << 31) - 1),
-                             ch.int(0, (1 << 31) - 1)] + ([1 << 31, (1 << 32) - 1] if bit31 else []))
+                             ch.int(0, (1 << 31) - 1)] + ([1 << 31, (1 << 32) - 1, int.from_bytes(BOOL_TRUE_LE, 'little'),
+                                                           int.from_bytes(BOOL_FALSE_LE, 'little')] if bit31 else []))
             tree[a.name] = v
             continue
         tree[a.name] = gen_val(ch, a.type, budget, big, (name, a.name), bit31)
@@ -751,7 +938,10 @@ def gen_val(ch, t, budget, big, where, bit31):
             return gen_int(ch, 31, signed=False)
         if p in ('int128', 'int256'):
             n = reftl.FIXED[p]
-            r = ch.int(0, 5)
+            r = ch.int(0, 7)
+            if r >= 6:                                   # begins (6) / ends (7) with a word that is a constructor id
+                w = magic_word(ch)
+                return (w + ch.bytes(n - 4) if r == 6 else ch.bytes(n - 4) + w).hex()
             return (b'\x00' * n if r == 0 else b'\xff' * n if r == 1 else ch.bytes(n)).hex()
         if p == 'Bool':
             return bool(ch.int(0, 1))
@@ -788,6 +978,9 @@ def all_flag_fields(c):
     return sorted({a.cond[0] for a in c.args if a.cond is not None})
 
 
+ENUM_ALL_BEFORE = {3: ('twin-bool',), 4: ('twin-float',), 5: ('look-schema', 'same', 'parse')}
+
+
 def enum_all(tier):
     k = 8 if tier == 'quick' else 150
     for name in SUPPORTED:
@@ -804,7 +997,10 @@ def enum_all(tier):
                                bit31=False)
             else:
                 tree = gen_obj(HashChooser(f'{name}/{j}'), name, 3, tier != 'quick' and j % 10 == 9, bit31=(j % 6 == 5))
-            yield {'ctor': name, 'v': tree}
+            case = {'ctor': name, 'v': tree}
+            if j in ENUM_ALL_BEFORE:
+                case['before'] = list(ENUM_ALL_BEFORE[j])
+            yield case
         if any(a.type[0] == 'vector' for a in c.args):
             # long vectors (16, 17, 40 elements) whose elements' byte fields hold nested objects wherever the schema allows
             for n in (16, 17, 40):
@@ -844,6 +1040,84 @@ def enum_huge_strings(tier):
             yield {'ctor': host, 'v': tree}
 
 
+def _s(u, bits):
+    return u - (1 << bits) if u >= 1 << (bits - 1) else u
+
+
+def enum_magic_words(tier):
+    """designed coincidences: 32-bit words of int / # / long / int128 / int256 fields (alone, in vectors, as a flags word) whose
+    wire bytes equal a constructor id - boolTrue, boolFalse, their neighbours and byte-reversals, every known id"""
+    special = [int.from_bytes(w, o) + d for w in (BOOL_TRUE_LE, BOOL_FALSE_LE) for o in ('little', 'big') for d in (0, -1, 1)]
+    ids = [int.from_bytes(w, 'little') for w in IDS_LE]
+    flag_hosts = [n for n in SUPPORTED if all_flag_fields(SCH.ctor(n))]
+    flag_hosts = flag_hosts[::max(1, len(flag_hosts) // 6)][:6]
+
+    def host(name, **fields):
+        if name not in SUPPORTED_SET:
+            return None
+        tree = gen_obj(FixedChooser('min'), name, 1, False, bit31=False)
+        for k, v in fields.items():
+            if k not in tree:
+                raise HarnessError(f'{name} has no field {k}')
+            tree[k] = v
+        return {'ctor': name, 'v': tree}
+
+    for i, u in enumerate(special + ids):
+        w = u.to_bytes(4, 'little')
+        out = [host('liteServer.currentTime', now=_s(u, 32)),
+               host('liteServer.version', mode=u, version=_s(u, 32), capabilities=_s(u << 32 | u, 64), now=0),
+               host('liteServer.version', mode=0, version=0, capabilities=_s(u, 64) if i % 2 else _s(u << 32, 64), now=_s(u, 32))]
+        if i < len(special) or i % 16 == 0:
+            z = bytes(range(1, 29))
+            out += [host('catchain.difference', sent_upto=[5, _s(u, 32), 6, _s(u, 32)]),
+                    host('hashable.vector', value=[_s(u, 32)]),
+                    host('storage.db.piecesInDb', pieces=[u, _s(u << 32, 64), _s(u << 32 | u, 64)]),
+                    host('adnl.address.udp6', ip=(w + z[:12]).hex(), port=_s(u, 32)),
+                    host('adnl.address.udp6', ip=(z[:12] + w).hex(), port=0),
+                    host('engine.gc', ids=[(w + z).hex(), (z + w).hex()]),
+                    host('pub.ed25519', key=(w + z).hex())]
+            for n in flag_hosts:                         # the word as a flags value: the fields its bits select are present
+                out.append({'ctor': n, 'v': gen_obj(HashChooser(f'magic/{n}/{u}'), n, 2, False, flags=u, bit31=True)})
+        for c in out:
+            if c is not None:
+                yield c
+
+
+def enum_earlier_calls(tier):
+    """histories in a freshly imported library (case['fresh']): BEFORE the well-typed value is serialised and parsed, the process
+    serialised its bool/int/float twin (1 for True, False for 0, 7.0 for 7: accepted, not well-typed), the value itself, parsed its
+    bytes, printed the schema - on the same TlSchemas object or on another one. Values: Bool fields both ways and integers 0/1
+    (both assignments; every constructor with a Bool field x a third of the programs, four integer hosts x all programs), and
+    hash-seeded values with their float twins (those plus every 12th other constructor; no fresh import needed)."""
+    programs = [['twin-bool'], ['twin-float'], ['same', 'twin-bool', 'same'], ['parse', 'twin-float', 'twin-bool'],
+                ['other-instance:twin-bool'], ['other-instance:twin-float'], ['look-schema', 'twin-bool', 'twin-float']]
+    has_bool = [n for n in SUPPORTED if any(a.type in (('prim', 'Bool'), ('boxed', 'Bool'), ('vector', ('prim', 'Bool')),
+                                                        ('vector', ('boxed', 'Bool'))) for a in SCH.ctor(n).args)]
+    ints = [n for n in ('liteServer.currentTime', 'liteServer.version', 'catchain.difference', 'storage.db.piecesInDb')
+            if n in SUPPORTED_SET]
+    rest = [n for i, n in enumerate(SUPPORTED) if i % 12 == 0 and n not in has_bool and n not in ints]
+    for idx, name in enumerate(has_bool + ints + rest):
+        base = gen_obj(HashChooser(f'earlier/{name}'), name, 2, False, bit31=False)
+        # hash-seeded integers: their float twins are values this process has not met, no fresh import needed
+        yield {'ctor': name, 'v': base, 'before': programs[1]}
+        if idx % 4 == 0:
+            yield {'ctor': name, 'v': base, 'before': programs[5]}
+        if name in rest:
+            continue
+        for variant in (0, 1):
+            cnt = [variant]
+
+            def small(p, v, fl):
+                if fl or p in ('int128', 'int256'):
+                    return v
+                cnt[0] += 1
+                return bool(cnt[0] % 2) if p == 'Bool' else cnt[0] % 2
+            tree = map_leaves(name, base, small)
+            for k, prog in enumerate(programs):
+                if name in ints or (k + idx + variant) % 3 == 0:
+                    yield {'ctor': name, 'v': tree, 'before': prog, 'fresh': True}
+
+
 def enum_flags(tier):
     cap = 64 if tier == 'quick' else 4096
     for name in SUPPORTED:
@@ -872,7 +1146,10 @@ def _random_case(draw, big):
     budget = draw(st.sampled_from([1, 2, 3, 4]))
     bit31 = draw(st.integers(0, 7)) == 0
     tree = gen_obj(HypChooser(draw), name, budget, big, bit31=bit31)
-    return {'ctor': name, 'v': tree}
+    case = {'ctor': name, 'v': tree}
+    if draw(st.integers(0, 4)) == 0:                    # every 5th case: earlier calls of the same process (cheap ones)
+        case['before'] = draw(st.lists(st.sampled_from(BEFORE_OPS[:5]), min_size=1, max_size=3))
+    return case
 
 
 def strat_random(tier):
@@ -894,8 +1171,12 @@ def strat_blockid(tier):
     h = st.one_of(st.binary(min_size=32, max_size=32), st.sampled_from([b'\x00' * 32, b'\xff' * 32]))
     i32 = st.one_of(st.sampled_from([0, -1, 1, -2 ** 31, 2 ** 31 - 1]), st.integers(-2 ** 31, 2 ** 31 - 1))
     i64 = st.one_of(st.none(), st.sampled_from([0, -1, -2 ** 63, 2 ** 63 - 1, 1 << 62]), st.integers(-2 ** 63, 2 ** 63 - 1))
+    # history: which of the held ids (x, its twin, its bytes / dict round trips y / z, the BlockId b) the caller formatted before
+    # comparing / looking up - mostly exactly one of them, sometimes several, sometimes none - and how
+    who = st.one_of(st.sampled_from(BID_WHO).map(lambda w: [w]), st.lists(st.sampled_from(BID_WHO), max_size=4, unique=True))
     return st.fixed_dictionaries({'wc': i32, 'shard': i64, 'seqno': i32, 'root': h.map(bytes.hex),
-                                  'file': h.map(bytes.hex), 'hex_args': st.booleans()})
+                                  'file': h.map(bytes.hex), 'hex_args': st.booleans(),
+                                  'printed': who, 'printed_late': who, 'how': st.sampled_from(BID_HOW)})
 
 
 # --------------------------------------------------------------------------------------------------
@@ -920,6 +1201,10 @@ def classify(case):
     for n in set(info['veclens']):
         yield f'veclen={n}'
     yield f'ctors-in-value={min(len(info["ctors"]), 5)}'
+    for op in case.get('before', ()):
+        yield 'earlier-call=' + op
+    if case.get('fresh'):
+        yield 'fresh-library'
 
 
 def nontrivial(case):
@@ -935,6 +1220,9 @@ def classify_bid(case):
     yield 'shard=None' if case['shard'] is None else 'shard<0' if case['shard'] < 0 else 'shard>=0'
     yield 'hex-args' if case['hex_args'] else 'bytes-args'
     yield 'wc<0' if case['wc'] < 0 else 'wc>=0'
+    yield 'formatted-first=' + ('none' if not case.get('printed') else case['printed'][0] if len(case['printed']) == 1 else 'several')
+    yield 'formatted-later=' + ('none' if not case.get('printed_late') else 'some')
+    yield 'how=' + case.get('how', '-')
 
 
 SUBCHECKS = [
@@ -946,6 +1234,12 @@ SUBCHECKS = [
         note='1..3-byte (and 4..7-byte) opaque payloads sharing their first bytes with every known constructor id (quick: every 4th id)'),
     Sub('strings-of-8-to-16-MiB', check_ctor, enum=enum_huge_strings, classify=classify, nontrivial=nontrivial, shards=(6, 8), case_cpu_s=120,
         note='lengths 2^23-1, 2^23, 2^24-4 (thorough: 2^23+5, 2^24-1): the 3-byte length field with its top bit set'),
+    Sub('words-equal-to-constructor-ids', check_ctor, enum=enum_magic_words, classify=classify, nontrivial=nontrivial, shards=(8, 8),
+        note='int / # / long / int128 / int256 fields, vector elements and flags words whose wire bytes are boolTrue, boolFalse (and '
+             'neighbours, byte-reversals) or any other known constructor id'),
+    Sub('earlier-calls-in-a-fresh-library', check_ctor, enum=enum_earlier_calls, classify=classify, nontrivial=nontrivial, shards=(8, 8),
+        note='TL modules imported afresh per case; earlier calls with equal-but-differently-typed (bool/int/float) values, the same '
+             'value, a parse, a printed schema, on this or another TlSchemas object; then the well-typed call'),
     Sub('random', check_ctor, strategy=strat_random, classify=classify, nontrivial=nontrivial,
         n=(12000, 600000), shards=(16, 48)),
     Sub('string-framing', check_ctor, strategy=strat_strings, classify=classify, nontrivial=nontrivial,
